@@ -1,6 +1,7 @@
 pub mod known;
 pub mod model;
 pub mod util;
+pub mod rqcheck;
 pub mod runner;
 pub mod tape;
 
